@@ -40,7 +40,7 @@ Qed.
    accepted text has; integer constants are below 2^128, the range of the syntax tree (printing in decimal and reading
    back is proved in Proofs/DecProofs.v). *)
 Theorem C10_statements_render_is_spelling : forall x l, Forall StRenderProofs.rstmt (x :: l) ->
-  StStmtProofs.wf_l token StInstance.tok_class StInstance.op_level true (StRender.list_sp StRender.ss_of x l) /\
+  StStmtProofs.wf_l token StInstance.tok_class t_text StInstance.tok_num StInstance.op_level true (StRender.list_sp StRender.ss_of x l) /\
   StStmtProofs.erase_l token t_text StInstance.tok_num (StRender.list_sp StRender.ss_of x l) = x :: l /\
   StStmtProofs.absorbs token (StRender.list_sp StRender.ss_of x l) = false.
 Proof. exact StRenderProofs.render_is_spelling. Qed.
